@@ -100,8 +100,8 @@ static std::vector<WOp> gen_arbitrary_ops(Src &s, bool big) {
         case 10: o.k = ref::W_NAME; o.s = gen_name(s, s.u8(), false); break;
         case 11: case 12: o.k = ref::W_BYTES; o.s = gen_payload(s, rel_len(s, big, last_len)); break;
         case 13: o.k = ref::W_RAW; o.s = gen_payload(s, s.u8() % 12); break;
-        case 14: o.k = ref::W_STR_C; o.s = gen_payload(s, gen_len(s, false)); for (auto &c : o.s) if (!c) c = 'z'; break;
-        default: o.k = ref::W_NAME_C; o.s = gen_name(s, s.u8(), false); for (auto &c : o.s) if (!c) c = 'z'; break;
+        case 14: o.k = ref::W_STR_C; o.s = gen_payload(s, rel_len(s, big, last_len)); for (auto &c : o.s) if (!c) c = 'z'; break;
+        default: o.k = ref::W_NAME_C; o.s = gen_name(s, s.u8(), big); for (auto &c : o.s) if (!c) c = 'z'; break;
         }
         ops.push_back(o);
     }
